@@ -28,8 +28,14 @@ def sc_create(case, ctx):
     else:
         bins = {c["name"]: gen.bins_frame(table, extra={"w": c["extra"]} if c["extra"] else None) for c in cells}
     pixels = {}
+    scale = case.get("scale", 1)
+    kw = {}
+    if scale != 1:
+        kw["dtypes"] = {"count": np.float64}                     # the caller's dtype for a standard column
     for c in cells:
         fr = gen.pixels_frame(c["px"])
+        if scale != 1:
+            fr["count"] = fr["count"].astype(np.float64) / scale  # case values are in units of 1/scale
         if case["form"] == "iter":
             h = len(fr) // 2
             pixels[c["name"]] = iter([fr.iloc[:h], fr.iloc[h:]])
@@ -38,10 +44,10 @@ def sc_create(case, ctx):
         else:
             pixels[c["name"]] = fr
     if case.get("ordered", True):
-        cooler.create_scool(path, bins, pixels, ordered=True, symmetric_upper=symm)
+        cooler.create_scool(path, bins, pixels, ordered=True, symmetric_upper=symm, **kw)
     else:
         # the default of create_scool: every cell goes through unordered creation (temporary files, merge)
-        cooler.create_scool(path, bins, pixels, symmetric_upper=symm, mergebuf=case.get("mergebuf", 3), temp_dir=ctx.subdir())
+        cooler.create_scool(path, bins, pixels, symmetric_upper=symm, mergebuf=case.get("mergebuf", 3), temp_dir=ctx.subdir(), **kw)
     listed = [s[len("/cells/"):] if s.startswith("/cells/") else "?" + s for s in cooler.fileops.list_scool_cells(path)]
     out = []
     names = gen.CHROMNAMES
@@ -53,16 +59,16 @@ def sc_create(case, ctx):
         for c in cells:
             g = f["cells"][c["name"]]
             clr = cooler.Cooler(g) if case["open"] == "handle" else None
-            raw = project.raw_collection(g)
+            raw = project.raw_collection(g, scale=scale)
             item = {"name": c["name"], "raw": raw,
                     "bins_addr": [_addr(g["bins"][k]) for k in ("chrom", "start", "end")],
                     "chroms_addr": [_addr(g["chroms"][k]) for k in ("name", "length")]}
             if clr is None:
                 clr = cooler.Cooler(path + "::/cells/" + c["name"])
             p = clr.pixels()[:]
-            item["pixels"] = project.pixel_rows(p, ["bin1_id", "bin2_id", "count"])
+            item["pixels"] = project.pixel_rows(p, ["bin1_id", "bin2_id", "count"], scale)
             sp = clr.matrix(balance=False, sparse=True)[:, :]
-            item["sparse"] = [[int(a), int(b), project.to_int(v)] for a, b, v in zip(sp.row, sp.col, sp.data)]
+            item["sparse"] = [[int(a), int(b), project.to_int(v * scale)] for a, b, v in zip(sp.row, sp.col, sp.data)]
             b = clr.bins()[:]
             item["bins"] = [[names.index(str(ch)), int(s), int(e)] for ch, s, e in zip(b["chrom"], b["start"], b["end"])]
             item["extra"] = project.ints(b["w"].values) if "w" in b.columns else []
@@ -105,14 +111,17 @@ def _view(clr, table, known_old):
             "pixels": project.pixel_rows(p, ["bin1_id", "bin2_id", "count"]), "fetches": fetches, "old_lookups": old}
 
 
-def _raw_rest(path):
+def _raw_rest(path, group="/", with_names=False):
     import h5py
     with h5py.File(path, "r") as f:
+        f = f[group]
         d = {"bins_chrom": [int(x) for x in f["bins/chrom"][:]], "bins_start": [int(x) for x in f["bins/start"][:]],
              "bins_end": [int(x) for x in f["bins/end"][:]], "lengths": [int(x) for x in f["chroms/length"][:]],
              "pixels": {k: [project.to_int(x) for x in f["pixels"][k][:]] for k in f["pixels"]},
              "indexes": {k: [int(x) for x in f["indexes"][k][:]] for k in f["indexes"]},
              "attrs": {k: str(project.attr(v)) for k, v in f.attrs.items()}}
+        if with_names:
+            d["names"] = [x.decode() for x in f["chroms/name"][:]]
     return project.canon_json(d)
 
 
@@ -123,23 +132,33 @@ def rn_rename(case, ctx):
     table, mode = case["table"], case["mode"]
     path = ctx.path()
     names0 = case["names"]
-    cooler.create_cooler(path, gen.bins_frame(table, names0), gen.pixels_frame(case["px"]), ordered=True,
-                         symmetric_upper=mode == "symm")
+    group = case.get("group", "/")
+    uri = path + "::" + group
+    if case.get("sibling"):
+        # another collection in the same file (at the root when the target is nested) with the SAME chromosome names
+        sib = "/" if group != "/" else "/other"
+        cooler.create_cooler(path + "::" + sib, gen.bins_frame(table, names0), gen.pixels_frame(case["px"][:1]), ordered=True,
+                             symmetric_upper=mode == "symm")
+    cooler.create_cooler(uri, gen.bins_frame(table, names0), gen.pixels_frame(case["px"]), ordered=True,
+                         symmetric_upper=mode == "symm", mode="a")
     if case["encoding"] == "int":
         # the integer encoding cooler itself falls back to when the enum header would be too large
         with h5py.File(path, "r+") as f:
-            ids = f["bins/chrom"][:].astype("int32")
-            del f["bins/chrom"]
-            ds = f["bins"].create_dataset("chrom", data=ids, dtype="int32")
-            ds.attrs["enum_path"] = "/chroms/name"
-    raw0 = _raw_rest(path)
-    clr = cooler.Cooler(path)
+            g = f[group]
+            ids = g["bins/chrom"][:].astype("int32")
+            del g["bins/chrom"]
+            ds = g["bins"].create_dataset("chrom", data=ids, dtype="int32")
+            ds.attrs["enum_path"] = (group.rstrip("/") + "/chroms/name")
+    raw0 = _raw_rest(path, group)
+    sib0 = _raw_rest(path, sib, True) if case.get("sibling") else ""
+    clr = cooler.Cooler(uri)
     stages = []
     seen = list(names0)
     for ren in case["renames"]:
         cooler.rename_chroms(clr, {a: b for a, b in ren})
         live = _view(clr, table, seen)
-        reopened = _view(cooler.Cooler(path), table, seen)
+        reopened = _view(cooler.Cooler(uri), table, seen)
         seen += [b for _, b in ren]
-        stages.append({"live": live, "reopened": reopened, "raw_rest": _raw_rest(path), "raw": project.raw_uri(path)})
-    return {"stages": stages, "raw_rest0": raw0}
+        stages.append({"live": live, "reopened": reopened, "raw_rest": _raw_rest(path, group), "raw": project.raw_uri(uri),
+                       "sibling": _raw_rest(path, sib, True) if case.get("sibling") else ""})
+    return {"stages": stages, "raw_rest0": raw0, "sibling0": sib0}
